@@ -74,7 +74,7 @@ fn disturb(e: &mut Emulator<VHost>) {
     e.verif_cpu().verif_set_active_prefix(pf);
 }
 
-fn sna_case(machine: ZXMachine, len: usize, fail_at: usize) {
+fn sna_case(machine: ZXMachine, len: usize, fail_at: usize) -> bool {
     let mut e = Emulator::<VHost>::new(settings(machine, false, false, false), VContext).ok().unwrap();
     disturb(&mut e);
     let mut f = Small::<32> { data: kani::any(), len, pos: 0, fail_at, calls: 0 };
@@ -113,8 +113,7 @@ fn sna_case(machine: ZXMachine, len: usize, fail_at: usize) {
             kani::assert(g.sp == (h[23] as u16) | ((h[24] as u16) << 8), "C14.sna 128K SP");
         }
     }
-    kani::cover!(r.is_ok());
-    kani::cover!(r.is_err());
+    r.is_ok()
 }
 
 macro_rules! sna_h {
@@ -133,8 +132,17 @@ macro_rules! sna_h {
     };
 }
 // C14: every header, every prior CPU state, matching model, healthy asset
-sna_h!(sna_header_48k, sna_case(ZXMachine::Sinclair48K, 49179, usize::MAX));
-sna_h!(sna_header_128k, sna_case(ZXMachine::Sinclair128K, 131103, usize::MAX));
+// (vacuity guards: both outcomes are reachable - IM 3 headers are the rejected ones)
+sna_h!(sna_header_48k, {
+    let ok = sna_case(ZXMachine::Sinclair48K, 49179, usize::MAX);
+    kani::cover!(ok);
+    kani::cover!(!ok);
+});
+sna_h!(sna_header_128k, {
+    let ok = sna_case(ZXMachine::Sinclair128K, 131103, usize::MAX);
+    kani::cover!(ok);
+    kani::cover!(!ok);
+});
 // C14/C15: model mismatch and truncated files: every machine x size class (concrete cases, the
 // header bytes stay symbolic; a symbolic size made the run infeasible: 12 GB)
 sna_h!(sna_rejects, {
@@ -143,7 +151,8 @@ sna_h!(sna_rejects, {
     let mut i = 0;
     while i < 8 {
         let m = if cases[i].0 { ZXMachine::Sinclair128K } else { ZXMachine::Sinclair48K };
-        sna_case(m, cases[i].1, usize::MAX);
+        let ok = sna_case(m, cases[i].1, usize::MAX);
+        kani::cover!(!ok);
         i += 1;
     }
 });
@@ -151,14 +160,16 @@ sna_h!(sna_rejects, {
 sna_h!(sna_faults_48k, {
     let mut k = 0;
     while k < 8 {
-        sna_case(ZXMachine::Sinclair48K, 49179, k);
+        let ok = sna_case(ZXMachine::Sinclair48K, 49179, k);
+        kani::cover!(!ok);
         k += 1;
     }
 });
 sna_h!(sna_faults_128k, {
     let mut k = 0;
     while k < 8 {
-        sna_case(ZXMachine::Sinclair128K, 131103, k);
+        let ok = sna_case(ZXMachine::Sinclair128K, 131103, k);
+        kani::cover!(!ok);
         k += 1;
     }
 });
